@@ -136,6 +136,26 @@ func (p *Proc) Process(ctx context.Context, recs []opencdc.Record) []sdk.Process
 				kind = "short"
 			}
 		}
+		if kind == "nestretry" {
+			// for the pieces of a record an EARLIER processor split: the first piece passes; the last piece is left out the first
+			// time it is seen (a short result: the engine retries it) and is split in two when it comes back
+			piece := r.Metadata["verif.piece"]
+			kind = "pass"
+			if piece != "" && !strings.HasPrefix(piece, "0/") && !strings.Contains(piece, ".") {
+				p.S.mu.Lock()
+				if p.S.shortSeen == nil {
+					p.S.shortSeen = map[string]bool{}
+				}
+				key := src + ":" + strconv.Itoa(idx) + ":" + piece
+				first := !p.S.shortSeen[key]
+				p.S.shortSeen[key] = true
+				p.S.mu.Unlock()
+				kind = "split2"
+				if first {
+					kind = "short"
+				}
+			}
+		}
 		r = r.Clone()
 		// work on a copy, as a plugin behind the SDK boundary does: the engine's own record must not change unless it
 		// stores the result
